@@ -7,8 +7,12 @@ strata and **kwargs strata, x kind {static, self, cls} x inline types x keyword-
 text x word wrap.  The parsed-back description is compared with the input (names and order with the ** parameter, types,
 prose, defaults strictly - an absent default must stay absent, an explicit one keeps value and Python type with
 None ~ "None" ~ NoneStr -, the return entry with its returned default expression, and the kind); an exception anywhere
-is a failure ("never raises").  Every failure is classified by the extracted Coq function finding_class_C03
-(coq/model/C03Spec.v), a function of the options and the input only; a failure whose class is None is a VIOLATION.
+is a failure ("never raises").  Every failure is classified by the extracted Coq function finding_class_C03_r
+(coq/model/C03Spec2.v: C03Spec's finding_class_C03 refined by the classes prose-exotic-blank,
+type-text-not-docstring-safe and summary-reads-as-section that the proof of the docstring link found inside its "no
+finding" region), a function of the options and the input only; a failure whose class is None is a VIOLATION.  A new
+class stands only for the failure it describes (described_by_new_classes): any other difference at such a point is a
+violation.  A stratum of the oracle draws those shapes.
 
 Cross-checks on every evaluated point: (1) the Coq relations same_interface_fn / kind_preserved applied to the real output
 agree with the Python comparison; (2) the composed model round_trip_fn (EmitAst.emit_function -> reparse_stmt ->
@@ -44,15 +48,157 @@ TRUSTED = [
     "Name(None) raises TypeError, the rest is a fixed point); validated by the c03 family, not proved",
     "ParseSig.show_expr / lit_eval model ast.unparse / ast.literal_eval; TyExpr models ast.parse on type strings; the parse table "
     "fo_pt carries what ast.parse makes of the code of a return default (recorded from the run)",
+    "finding_class_C03_r (the partition of the failures of the real code: finding_class_C03 plus the three classes of "
+    "model/C03Spec2.v that the proof of the docstring link found - C03_doc_link_witnesses) is validated by the oracle on every "
+    "run, not proved complete (proofs/C03Spec2Facts.v: the refinement only adds these, its guard is inside guard_C03); which "
+    "differences a new class describes is decided by the oracle (described_by_new_classes) from the entries the Coq "
+    "function names",
 ]
 
 
-def _class_requests(pts):
+def _class_requests(pts, fn="c03_class_r"):
     reqs = []
     for ir, o, _ in pts:
         pt = fam_c03.pt_of(fam_c03.od(ir))
-        reqs.append(dumps([Sym("c03_class")] + fam_c03.opts_wire(o, pt) + [irwire.enc_ir(fam_c03.od(ir))]))
+        reqs.append(dumps([Sym(fn)] + fam_c03.opts_wire(o, pt) + [irwire.enc_ir(fam_c03.od(ir))]))
     return reqs
+
+
+# ------------------------------------------------------------------ the classes of model/C03Spec2.v
+NEW_CLASSES = ("prose-exotic-blank", "type-text-not-docstring-safe", "summary-reads-as-section")
+TOKEN_TYPES = ["Literal[':type']", "Literal[':param', 'x']", "Literal[':return']", "Literal['a :rtype: b']", "Literal[':cvar x']",
+               "Literal[':returns:']"]
+BROKEN_LINE_TYPES = ["List[\nint]", "Dict[str,\n int]", "Optional[\nstr]", "Tuple[int,\n    str]", "Literal['a\x0cb']",
+                     "Literal['a\x0bb', 'c']"]
+KWARGS_TYPES = ["**int", "**kw", "**Dict[str, int]"]
+
+
+def _new_info(resp):
+    """(new classes that apply, entries with exotic prose, entries whose written type text holds a field token, entries whose
+    written type text is unsafe otherwise) from the answer to c03_new_classes"""
+    e = loads(resp)
+    return tuple([unhx(x) for x in part] for part in e)
+
+
+def _entry(ir, n):
+    if n == "return_type":
+        return ((ir.get("returns") or {}).get("return_type")) if ir.get("returns") else None
+    return (ir.get("params") or {}).get(n)
+
+
+def described_by_new_classes(ir, o, t, info):
+    """a new class stands for the failure it describes only.  What the classes that apply leave open:
+      prose-exotic-blank            the prose of the entries that hold such a blank;
+      type-text-not-docstring-safe  the type of the entries whose written type text breaks a line / starts with **; for a
+                                    type text with a field token (the scanner cuts the docstring inside it) the type and
+                                    prose of that entry, entries invented from the cut text, or a SyntaxError of the parser;
+      summary-reads-as-section      the docstring-derived IR is not empty although nothing was documented: whatever it
+                                    mentions (entries and a return entry invented or overwritten), or an exception of the
+                                    section parser.
+    Everything else must have come back as it was put in (and the kind): otherwise the failure is not of these classes."""
+    import copy
+    news, exotic, tok, unsafe = info
+    section = "summary-reads-as-section" in news
+    if t.stage != "done":
+        if t.stage in ("docstring", "parse"):
+            return section or (bool(tok) and isinstance(t.exc, SyntaxError))
+        return False
+    free = collections.defaultdict(set)
+    for n in exotic:
+        free[n].add("doc")
+    for n in unsafe:
+        free[n].add("typ")
+    for n in tok:
+        free[n] |= {"typ", "doc"}
+    invented_ok = bool(tok)
+    if section and t.doc_ir is not None:
+        invented_ok = True
+        for n in (t.doc_ir.get("params") or {}):
+            free[n] |= {"typ", "doc", "default"}
+        if (t.doc_ir.get("returns") or {}).get("return_type"):
+            free["return_type"] |= {"typ", "doc", "default"}
+    exp = {"params": collections.OrderedDict((k, dict(v)) for k, v in ir["params"].items()), "returns": None}
+    if _entry(ir, "return_type") is not None:
+        exp["returns"] = {"return_type": dict(_entry(ir, "return_type"))}
+    out = {"type": t.out.get("type"), "returns": None,
+           "params": collections.OrderedDict((k, dict(v)) for k, v in (t.out.get("params") or {}).items()
+                                             if not invented_ok or k in ir["params"])}
+    if _entry(t.out, "return_type") is not None and not (invented_ok and exp["returns"] is None):
+        out["returns"] = {"return_type": dict(_entry(t.out, "return_type"))}
+    for n, fields in free.items():
+        pe, po = _entry(exp, n), _entry(out, n)
+        if pe is None or po is None:
+            continue
+        for f in fields:
+            pe.pop(f, None)
+            if f in po:
+                pe[f] = copy.deepcopy(po[f])
+    return not fam_c03.same_interface_fn(exp, out, o["function_type"])
+
+
+def gen_new_shape(rng):
+    """an (ir, opts, tags) point with one of the shapes the proof of the docstring link found: prose with a line boundary
+    other than the line feed inside (parameter, ** parameter, return entry); a type text that the :type / :rtype line does
+    not carry (field token, line break, leading **), mostly with the types in the docstring; a summary that holds a
+    Google / numpydoc section header above entries without prose"""
+    import gen_ir
+    import gen_text as G
+    OD = collections.OrderedDict
+    o = fam_c03.gen_opts(rng)
+    if rng.random() < 0.85:
+        o["emit_default_doc"] = False
+    k = rng.random()
+    if k < 0.7:
+        ir, _ = gen_ir.gen_ir(rng, nparams=rng.choice([0, 0, 1, 2]), returns="none", kwargs=False, clean=True)
+        for p in ir["params"].values():          # (a parameter without default is the class no-default-becomes-none)
+            if "default" not in p:
+                p["default"] = gen_ir.consistent_default(rng, p["typ"], ["value"])[1]
+        ir["doc"] = G.clean_prose(rng, max_words=6)
+        name = G.ident(rng)
+        while name in ir["params"]:
+            name = G.ident(rng)
+        plain = {"doc": G.clean_prose(rng), "typ": "int", "default": 5}
+    if k < 0.35:
+        where = rng.random()
+        doc = G.exotic_blank_prose(rng)
+        if where < 0.6:
+            typ = rng.choice(["int", "str", "float", "Optional[int]", "List[str]"])
+            ir["params"][name] = {"doc": doc, "typ": typ, "default": gen_ir.consistent_default(rng, typ, ["value"])[1]}
+            tags = ["exotic-blank-prose:param"]
+        elif where < 0.75:
+            ir["params"][name] = plain
+            ir["params"]["kwargs"] = {"doc": doc, "typ": "Optional[dict]", "default": "```(None)```"}
+            tags = ["exotic-blank-prose:kwargs"]
+        else:
+            ir["params"][name] = plain
+            ir["returns"] = OD((("return_type", {"doc": doc, "typ": rng.choice(["int", "List[str]", "np.ndarray"])}),))
+            tags = ["exotic-blank-prose:return"]
+    elif k < 0.7:
+        o["inline_types"] = rng.random() < 0.2
+        shape = rng.choice(["token", "token", "line", "line", "kwargs"])
+        typ = rng.choice({"token": TOKEN_TYPES, "line": BROKEN_LINE_TYPES, "kwargs": KWARGS_TYPES}[shape])
+        if rng.random() < 0.75:
+            ir["params"][name] = {"doc": G.clean_prose(rng), "typ": typ,
+                                  "default": rng.choice([None, "```(None)```"] if shape != "line" or "Literal" in typ or "Optional" in typ
+                                                        else ["```[1]```", "```{}```", "```x```"])}
+            tags = ["type-text:%s:param" % shape]
+        else:
+            ir["params"][name] = plain
+            ir["returns"] = OD((("return_type", {"doc": G.clean_prose(rng), "typ": typ}),))
+            tags = ["type-text:%s:return" % shape]
+    else:
+        o["inline_types"] = rng.random() < 0.9
+        ir = {"name": None, "type": "static", "doc": G.section_summary(rng), "params": OD(), "returns": None}
+        for _ in range(rng.choice([0, 1, 1, 2])):
+            typ = rng.choice(["int", "str", "float", "Optional[int]", "List[str]"])
+            ir["params"][G.ident(rng)] = {"typ": typ, "default": gen_ir.consistent_default(rng, typ, ["value"])[1]}
+        if rng.random() < 0.2:
+            ir["returns"] = OD((("return_type", {"typ": rng.choice(["int", "List[str]"])}),))
+        tags = ["section-summary"]
+    ir = {"name": ir.get("name"), "type": ir.get("type"), "doc": ir.get("doc"),
+          "params": OD((k_, dict(v)) for k_, v in ir["params"].items()),
+          "returns": None if not ir.get("returns") else OD((("return_type", dict(ir["returns"]["return_type"])),))}
+    return ir, o, tags
 
 
 def _cls(resp):
@@ -65,6 +211,8 @@ def _cls(resp):
 def oracle(rng, tier):
     n = 2500 if tier == "quick" else 40000
     pts = [fam_c03.gen_point(rng) for _ in range(n)]
+    # stratum: the shapes that proofs found inside the first classifier's no-finding region
+    pts += [gen_new_shape(rng) for _ in range(300 if tier == "quick" else 4000)]
     classes = []
     try:
         for ir, o, _ in pts:
@@ -72,19 +220,28 @@ def oracle(rng, tier):
     except Exception:  # noqa
         pass
     classes = run_model(_class_requests(pts))
+    infos = run_model(_class_requests(pts, "c03_new_classes"))
     failures, hist, seen, disagree = [], collections.Counter(), set(), []
     rel_reqs, rel_idx, rt_reqs, rt_idx, da_reqs, da_idx = [], [], [], [], [], []
-    for (ir, o, tags), c in zip(pts, classes):
+    for k_pt, ((ir, o, tags), c, nw) in enumerate(zip(pts, classes, infos)):
         cls = _cls(c)
         case = {"ir": ir, "opts": o}
+        stratum = "new-shapes:%s:" % tags[0] if k_pt >= n else ""
         if cls == "out-of-domain":
-            hist["out-of-domain"] += 1
+            hist[stratum + "out-of-domain"] += 1
             continue
         ok, what, t = fam_c03.round_trip(ir, o)
         if cls == "unmodelled":
             hist["skipped-unmodelled:" + ("holds" if ok else "fails")] += 1
             continue
-        hist[("holds" if ok else "fails") + ":" + (cls or "in-guard")] += 1
+        if not ok and cls in NEW_CLASSES:
+            info = _new_info(nw)
+            if not described_by_new_classes(ir, o, t, info):
+                hist["not-described:" + cls] += 1
+                what += " [not what the recorded class%s %s describe%s]" % (
+                    "es" if len(info[0]) > 1 else "", ", ".join(info[0]), "" if len(info[0]) > 1 else "s")
+                cls = None
+        hist[stratum + ("holds" if ok else "fails") + ":" + (cls or "in-guard")] += 1
         if cls is None:
             seen.add(json.dumps(case, sort_keys=True, default=str))
         if not ok:
@@ -103,7 +260,7 @@ def oracle(rng, tier):
                 rt_idx.append((case, dumps(t.wire_result())))
             except Exception:  # noqa
                 hist["round-trip-not-encodable"] += 1
-        if cls is None:
+        if cls is None and _cls(c) is None:
             if t.doc_ir is None:
                 failures.append({"case": case, "what": "inside the guard but no docstring-derived IR (stage %s)" % t.stage,
                                  "class": None})
@@ -134,7 +291,10 @@ def oracle(rng, tier):
         "evaluations": len(pts),
         "distinct_nontrivial": len(seen),
         "rule": "descriptions from gen_ir (clean and general), single-parameter strata (type shape x prose shape x default "
-                "kind), wider scalar values, return-entry strata, **kwargs strata; x kind {static, self, cls} x inline types "
+                "kind), wider scalar values, return-entry strata, **kwargs strata, the shapes proofs found inside the first "
+                "classifier's no-finding region (prose with a form feed / VT / CR / FS / GS / RS inside; type texts with a field "
+                "token, a line break or a leading ** written into the docstring; a section-like summary above entries without "
+                "prose); x kind {static, self, cls} x inline types "
                 "x keyword-only x indent 0..2 x separating tab x default text x word wrap; real emit.function -> ast.unparse "
                 "-> ast.parse -> parse.function; strict same_interface + kind + never raises; non-trivial = distinct point "
                 "inside the guard",
